@@ -2,6 +2,7 @@
 package main
 
 import (
+	"bytes"
 	"encoding/json"
 	"flag"
 	"fmt"
@@ -112,6 +113,9 @@ func main() {
 			b, err := os.ReadFile(filepath.Join(*shared, e.Name()))
 			if err != nil {
 				fatal(err)
+			}
+			if bytes.Contains(b, []byte("//zz:notfor "+*pkgDir+"\n")) {
+				continue // the helper needs imports this package cannot have
 			}
 			b = regexp.MustCompile(`(?m)^package \w+`).ReplaceAll(b, []byte("package "+pkgName))
 			overlay[filepath.Join(absPkg, e.Name())] = b
